@@ -55,6 +55,25 @@ def _execute_build(gw, rl):
             'cbmc_flags': ['--no-standard-checks', '--unwinding-assertions', '--no-malloc-may-fail']}
 
 
+DBG_PROPS = ['C05', 'C06', 'C17', 'C18']
+
+
+def _dbg_build(fn, loops=False, redirect=False, cdefs=()):
+    def build(gw, rl):
+        vmunit.vm_mirror(gw)
+        name, expected = vmunit.build_dbg_unit(gw, rl, reset_redirect=redirect)
+        rl.check(expected)
+        b = {'c_sources': [os.path.join(CONTRACTS, 'vm_dbg.c')], 'cxx_sources': [os.path.join(gw, name)],
+             'cxxdefs': ['MODEL_MAP_INDEX_MUST_FIND'], 'cdefs': list(cdefs),
+             'entry': 'h_' + fn, 'enforce': [f'w_{fn}/c_{fn}'], 'dropped': DROPPED_VM, 'min_obligations': 10}
+        if redirect:
+            b['replace'] = ['w_clearBreakpoints/c_clearBreakpoints']
+        if loops:
+            b['loops_tpl'] = os.path.join(CONTRACTS, 'vm_dbg.loops.json.in')
+        return b
+    return build
+
+
 def groups():
     gs = []
     gs.append(Group('vm_layout', STEP_PROPS + ['C17', 'C07', 'C08', 'C18'], 'class layouts of Theo::VM, Program, Instruction, Activation, BreakPoint, StackMap',
@@ -73,4 +92,13 @@ def groups():
     gs.append(Group('execute', ['C06', 'C17', 'C05', 'C03', 'C19', 'C20', 'C18'], 'Theo::VM::execute (VM/src/vm.cpp)', 'c_execute', _execute_build,
                     timeout=1800, expect_loops=1,
                     note='callee executeSingle replaced by its contract c_step_any'))
+    for fn in ('getCurrentBreak', 'setSteppingMode', 'isSteppingModeEnabled', 'isDone', 'getActivations', 'getEnabledBreakPoints'):
+        gs.append(Group('dbg_' + fn, DBG_PROPS + (['C07'] if fn in ('getCurrentBreak', 'getActivations') else []),
+                        f'Theo::VM::{fn} (VM/src/vm.cpp)', 'c_' + fn, _dbg_build(fn), timeout=600))
+    gs.append(Group('dbg_reset', DBG_PROPS + ['C19'], 'Theo::VM::reset (VM/src/vm.cpp)', 'c_reset', _dbg_build('reset', redirect=True),
+                    timeout=600, note='callee clearBreakpoints replaced by its contract c_clearBreakpoints'))
+    gs.append(Group('dbg_clearBreakpoints', DBG_PROPS, 'Theo::VM::clearBreakpoints (VM/src/vm.cpp)', 'c_clearBreakpoints',
+                    _dbg_build('clearBreakpoints', loops=True), timeout=3600, expect_loops=1, tier='thorough'))
+    gs.append(Group('dbg_setBreakPoint', DBG_PROPS + ['C08'], 'Theo::VM::setBreakPoint (VM/src/vm.cpp)', 'c_setBreakPoint',
+                    _dbg_build('setBreakPoint', loops=True), timeout=3600, expect_loops=1, tier='thorough'))
     return gs
